@@ -67,7 +67,7 @@ def regenerate_gen():
 
 
 TIE_OF = {'C02': ['C01'], 'C03': ['C09'], 'C04': ['C01'], 'C07': ['C05'], 'C11': ['C05', 'C06'],
-          'C14': ['C05'], 'C16': ['C05', 'C06'], 'C17': ['C17', 'C05', 'C09', 'C10'], 'C15': ['C01']}
+          'C14': ['C14', 'C05'], 'C16': ['C05', 'C06'], 'C17': ['C17', 'C05', 'C09', 'C10'], 'C15': ['C01']}
 
 
 EXTRA_PROPS = {'C03': ['Pearl.Props.C03b'], 'C01': ['Pearl.Props.EndToEnd'], 'C06': ['Pearl.Props.EndToEndCrash'],
@@ -480,7 +480,10 @@ def judge(res, pdef):
                 break
         race2 = any(l.startswith(('race2', 'closerace')) for l in res['script'])      # stalled racers: the Spec oracle follows them
         if (orc_applies or (race2 and c in ('r', 'ram', 'states', 'race2', 'closerace'))) and orc.startswith('MISMATCH') \
-                and not (nomodel and pdef.get('no_oracle_after_nomodel') and not race2):
+                and not (nomodel and pdef.get('no_oracle_after_nomodel') and not race2) \
+                and not any(l.startswith('conc ') for l in res['script'][:i + 1]):
+            # (after a `conc` run the Spec oracle has not seen the clients' operations: the run is judged by its own history
+            # check, the counters by the property's oracle)
             verdict = orc
             if nomodel and pdef.get('tolerate_err_after_damage') and impl.startswith(('err ', 'list')) and 'err ' in impl:
                 verdict = None     # after injected damage a read may fail; it must not return wrong data
@@ -491,7 +494,7 @@ def judge(res, pdef):
         if verdict:
             findings.append(Finding('violation', res, i, verdict))
             break
-        if c in ('dmgsweep', 'crashsweep', 'flipsweep', 'faultsweep', 'cancelsweep', 'toolsweep', 'conc', 'killcheck') and impl.startswith('sweep ok'):
+        if c in ('dmgsweep', 'crashsweep', 'metasweep', 'flipsweep', 'faultsweep', 'cancelsweep', 'toolsweep', 'conc', 'killcheck') and impl.startswith('sweep ok'):
             impl = 'sweep ok'      # the count of damaged copies is reported, not compared
         # index-file sizes depend on whether a background dump (started by a close / rotation / explicit request) ran
         # before or after a later delete or write reached the same blob: once such a race was possible (no quiescent
